@@ -165,6 +165,40 @@ def proto_safe_output_rule(fam, mod, rep, rid):
     Object.defineProperty), or o was created without a prototype."""
     n = 0
 
+    def spells_proto(fn, e):
+        """the expression is the string "__proto__": the literal, or a `const` (module-level or local to fn) that is
+        initialised with the literal - b102 names it `const PROTO_KEY = "__proto__"`"""
+        e = unparen(e)
+        while e.get("type") in ("TsAsExpression", "TsConstAssertion", "TsSatisfiesExpression"):
+            e = unparen(e["expression"])
+        if e.get("type") == "StringLiteral":
+            return e["value"] == "__proto__"
+        if e.get("type") != "Identifier":
+            return False
+        inits = [d_.get("init") for v_ in walk(fn) if v_["type"] == "VariableDeclaration" and v_.get("kind") == "const"
+                 for d_ in v_["declarations"] if d_["id"].get("type") == "Identifier" and d_["id"]["value"] == e["value"]]
+        if not inits and e["value"] not in ts_common.fn_params(fn):
+            mv = mod.vars.get(e["value"])
+            inits = [mv[1]] if mv and mv[0] == "const" else []
+        if len(inits) != 1 or inits[0] is None:
+            return False
+        i_ = unparen(inits[0])
+        while i_.get("type") in ("TsAsExpression", "TsConstAssertion", "TsSatisfiesExpression"):
+            i_ = unparen(i_["expression"])
+        return i_.get("type") == "StringLiteral" and i_["value"] == "__proto__"
+
+    def proto_test(fn, atom, kt):
+        """True when the known atom says `<k> === "__proto__"`, False when it says `<k> !== "__proto__"` (either
+        operand order, the string given by a literal or a named constant), None for any other atom"""
+        e = ts_common._NODES.get(atom)
+        e = unparen(e) if e is not None else None
+        if e is None or e.get("type") != "BinaryExpression" or e["operator"] not in ("===", "!=="):
+            return None
+        l, r = unparen(e["left"]), unparen(e["right"])
+        if not ((s(l) == kt and spells_proto(fn, r)) or (s(r) == kt and spells_proto(fn, l))):
+            return None
+        return e["operator"] == "==="
+
     def judge(label, fn, objs):
         nonlocal n
         for a in walk(fn):
@@ -184,7 +218,8 @@ def proto_safe_output_rule(fam, mod, rep, rid):
             ka = ts_common.known_atoms(fn, a)
             kt = s(k)
             safe = any((t_.strip("()") in ('%s==="__proto__"' % kt, '"__proto__"===%s' % kt) and pol is False) or
-                       (t_.strip("()") in ('%s!=="__proto__"' % kt, '"__proto__"!==%s' % kt) and pol is True) for t_, pol in ka.items())
+                       (t_.strip("()") in ('%s!=="__proto__"' % kt, '"__proto__"!==%s' % kt) and pol is True) or
+                       proto_test(fn, t_, kt) == (not pol) for t_, pol in ka.items())
             n += 1
             rep.ob(rid, "%s/%s[%s]" % (label, o["value"], kt), safe,
                    "%s writes the parse result with `%s[%s] = ..` where the key comes from the input: for an own key `__proto__` of the input (JSON.parse creates those) the assignment sets the result's prototype instead of defining the property - the key is missing from the returned data, and an object value becomes the data's prototype" % (label, o["value"], kt),
@@ -902,9 +937,29 @@ def parse_throw_guard_rule(fam, mod, rep, rid):
             continue
         pf = tsast.flatten_fn(mod, cname, p["function"])
         guarded = []
-        for i in walk(pf):
-            if i["type"] == "IfStatement" and "typeof" in s(i["test"]) and '"object"' in s(i["test"]) and any(t_["type"] == "ThrowStatement" for t_ in walk(i["consequent"])):
-                guarded.append(i)
+        # the throw may sit in a local helper that is handed the member's result (b102: `const parsed =
+        # expectParsedObject(member.parseAfterValidation(ctx, input))` - flatten_fn does not inline it, the argument is
+        # a call): the helpers reached from the parse step (module functions, methods through `this`) are read as well
+        bodies, seen_h = [pf], set()
+        # locals of the parse step that hold a member's parse result
+        results = {d_["id"]["value"] for d_ in walk(pf) if d_["type"] == "VariableDeclarator" and d_["id"].get("type") == "Identifier"
+                   and d_.get("init") is not None and ".parseAfterValidation(" in s(d_["init"])}
+        for c_ in walk(pf):
+            if c_["type"] != "CallExpression":
+                continue
+            r_ = tsast.resolve_local_call(mod, cname, c_)
+            if r_ is None or id(r_[0]) in seen_h:
+                continue
+            # only a helper that receives a member's parse result (directly or through a local) can test it
+            if not any(".parseAfterValidation(" in s(a_["expression"]) or
+                       (unparen(a_["expression"]).get("type") == "Identifier" and unparen(a_["expression"])["value"] in results) for a_ in c_["arguments"]):
+                continue
+            seen_h.add(id(r_[0]))
+            bodies.append(tsast.flatten_fn(mod, r_[1] or cname, r_[0]))
+        for b_ in bodies:
+            for i in walk(b_):
+                if i["type"] == "IfStatement" and "typeof" in s(i["test"]) and '"object"' in s(i["test"]) and any(t_["type"] == "ThrowStatement" for t_ in walk(i["consequent"])):
+                    guarded.append(i)
         if not guarded:
             continue
         n += 1
